@@ -13,7 +13,7 @@ import numpy as np
 PROP = "C04"
 LEVEL = "exploration"
 VARIANTS = ("omp",)
-CASE_TIMEOUT = 300
+CASE_TIMEOUT = 1200
 CONTRACTS = True
 RULE = ("cases = unit cell (zoo incl. magnetic, hostile re-descriptions: integer shifts, atoms at 1-1e-9, rotated lattice, permuted order) x batch of supercell matrices "
         "({-1,0,1}^(3x3) with det>0: sample in quick, all 5904... in thorough; diagonal; random entries to +-4) x {old style, SNF} + primitive matrices "
